@@ -155,3 +155,63 @@ Proof.
   unfold exec in Esw. destruct (k1 !! M) as [vM|]; [|done]. rewrite Hk1 in Esw. simplify_eq.
   rewrite lookup_insert. f_equal. f_equal. set_solver.
 Qed.
+
+(* ---------------------------------------------------------------- the leak (unrepaired code) *)
+(* results of a run, read back through projections so that only booleans are ever normalised *)
+Definition isS {A} (r : option A) : bool := match r with Some _ => true | None => false end.
+Definition u_s (r : option (st * kernel * list event)) : st := match r with Some (s, _, _) => s | None => init_st end.
+Definition u_k (r : option (st * kernel * list event)) : kernel := match r with Some (_, k, _) => k | None => ∅ end.
+Definition d_s (r : option (st * kernel * list event * bool)) : st := match r with Some (s, _, _, _) => s | None => init_st end.
+Definition d_k (r : option (st * kernel * list event * bool)) : kernel := match r with Some (_, k, _, _) => k | None => ∅ end.
+
+Definition lk_m1 : meta := (0, (100, (0, 0))).
+Definition lk_m2 : meta := (0, (200, (0, 0))).
+Definition lk_k0 : kernel := {[ main_name 0 := (lk_m1, {[ (0, 1) ]}) ]}.
+Definition lk_block (t : N) : name * list cmd :=
+  (main_name 0, [CCreate (temp_name t) lk_m2; CAdd (temp_name t) (0, 1); CAdd (temp_name t) (0, 2);
+                 CSwap (main_name 0) (temp_name t)]).
+Definition lk_D1 : gmap N (meta * gset member) := <[0 := (lk_m1, {[ (0, 1) ]})]> ∅.
+Definition lk_D : gmap N (meta * gset member) := <[0 := (lk_m2, {[ (0, 1); (0, 2) ]})]> lk_D1.
+
+(* first apply (start-of-day resync), nothing to do *)
+Definition lk_s1 := add_or_replace 0 lk_m1 {[ (0, 1) ]} init_st.
+Definition lk_r1 := apply_updates false [mkAtt [main_name 0] [] [] None false] None lk_k0 lk_s1.
+Definition lk_r2 := apply_deletions [] (u_k lk_r1) (u_s lk_r1).
+(* metadata change; the write of the swap line fails; the retry succeeds with the next temporary name *)
+Definition lk_s3 := add_or_replace 0 lk_m2 {[ (0, 1); (0, 2) ]} (d_s lk_r2).
+Definition lk_r3 := apply_updates false [mkAtt [] [] [lk_block 0] (Some 3%nat) true;
+                                         mkAtt [main_name 0] [] [lk_block 1] None false] None (d_k lk_r2) lk_s3.
+Definition lk_r4 := apply_deletions [(temp_name 1, false)] (u_k lk_r3) (u_s lk_r3).
+(* a further apply finds nothing to do *)
+Definition lk_r5 := apply_updates false [mkAtt [] [] [] None false] None (d_k lk_r4) (d_s lk_r4).
+Definition lk_r6 := apply_deletions [] (u_k lk_r5) (u_s lk_r5).
+
+Definition lk_s := d_s lk_r6.
+Definition lk_k := d_k lk_r6.
+
+Definition lk_checks : bool :=
+  isS lk_r1 && isS lk_r2 && isS lk_r3 && isS lk_r4 && isS lk_r5 && isS lk_r6
+  && negb (s_panic lk_s) && bool_decide (pending_del lk_s = ∅) && rq_empty lk_s && negb (s_full lk_s) && negb (s_bgreq lk_s)
+  && bool_decide (dirty1 lk_s ∪ dirty2 lk_s = ∅)
+  && match lk_r5 with Some (_, _, []) => true | _ => false end
+  && match lk_r6 with Some (_, _, [], false) => true | _ => false end
+  && isS (lk_k !! temp_name 0) && negb (isS (s_dp lk_s !! temp_name 0))
+  && negb (converged lk_D ∅ lk_k).
+
+Lemma lk_checks_true : lk_checks = true.
+Proof. vm_compute. reflexivity. Qed.
+
+(* the same history on the repaired code: the failed attempt queues cali4t0 for re-listing, the retry re-lists it,
+   tryTempIPSetDeletions destroys it; the end state is converged *)
+Definition fk_r3 := apply_updates true [mkAtt [] [] [lk_block 0] (Some 3%nat) true;
+                                        mkAtt [main_name 0; temp_name 0] [(temp_name 0, false)] [lk_block 1] None false]
+                                  None (d_k lk_r2) lk_s3.
+Definition fk_r4 := apply_deletions [(temp_name 1, false)] (u_k fk_r3) (u_s fk_r3).
+Definition fk_r5 := apply_updates true [mkAtt [] [] [] None false] None (d_k fk_r4) (d_s fk_r4).
+Definition fk_r6 := apply_deletions [] (u_k fk_r5) (u_s fk_r5).
+Definition fk_checks : bool :=
+  isS fk_r3 && isS fk_r4 && isS fk_r5 && isS fk_r6
+  && match fk_r6 with Some (_, _, [], false) => true | _ => false end
+  && converged lk_D ∅ (d_k fk_r6).
+Lemma fk_checks_true : fk_checks = true.
+Proof. vm_compute. reflexivity. Qed.
